@@ -346,6 +346,14 @@ fn corpus() -> Vec<(String, Case)> {
                 Doc { put: plain(PayloadKind::Bin, 9, 8, 100), cut: true },
                 Doc { put: emb_put(PayloadKind::Utf8, 3000, 9, 99, 3, 23), cut: false }],
             dis: false, skip_sync: false, level: 0, presize: 200_000, skip_in_batch: true }),
+        // 14 incompressible 4 KB documents: the plain path (and the batch path, which keeps the automatic
+        // checkpoint on) crosses 75 % of the 64 KiB WAL and checkpoints by itself in the middle of the set;
+        // the skip path commits every 5 documents and never does
+        ("auto-checkpoint-mid-ingestion".into(), Case {
+            docs: (0..14u64).map(|i| Doc {
+                put: if i % 3 == 0 { emb_put(PayloadKind::Rand, 4000, 40 + i, 300 + i as i64, 2, 60 + i) } else { plain(PayloadKind::Rand, 4000, 40 + i, 300 + i as i64) },
+                cut: i % 5 == 4 }).collect(),
+            dis: false, skip_sync: true, level: 3, presize: 0, skip_in_batch: false, prefix: vec![] }),
         ("empty-and-tiny".into(), Case {
             docs: vec![Doc { put: plain(PayloadKind::Empty, 0, 1, 5), cut: true }, Doc { put: plain(PayloadKind::Bin, 1, 2, 5), cut: false }, Doc { put: emb_put(PayloadKind::Zero, 100, 3, 4, 1, 5), cut: false }],
             level: 9, presize: 1, ..base.clone() }),
